@@ -58,7 +58,7 @@ def split_on_reason_table(vc, status):
     return status
 
 
-FE_CANDS = [dict(status=st, message=m) for st in (400, 502, 999) for m in ("", "plain text", "<b>\"'", "&amp;<script>alert(1)</script>", "&amp;", "a&b<c>", "&#39;<")]
+FE_CANDS = [dict(status=st, message=m) for st in (400, 502, 999) for m in ("", "plain text", "<b>\"'", "&amp;<script>alert(1)</script>", "&amp;", "a&b<c>", "&#39;<", "\uff1cscript\uff1e", "caf\u00e9 \uff02x\uff07")]
 
 
 @scenario("format_error", functions=[F], markup_proj=True, candidates=FE_CANDS)
@@ -89,8 +89,8 @@ def s_reason_table(vc):
 
 
 def _body_summary(vc, body, calls):
-    def summ(v, status, message=""):
-        calls.append((status, message))
+    def summ(v, status, message="", *more, **kw):
+        calls.append((status, message) + tuple(more) + tuple(kw.values()))
         return body
     vc.summary(F, summ)
     vc.summary("mitmproxy.proxy.layers.http._http1:format_error", summ)
@@ -178,8 +178,8 @@ def s_h1_send_error(vc):
     page = vc.sym_bytes("page")
     made = []
 
-    def mer(v, status, message=""):
-        made.append((status, message))
+    def mer(v, status, message="", *more, **kw):   # tolerant of further parameters of this internal helper
+        made.append((status, message) + tuple(more) + tuple(kw.values()))
         return page
 
     vc.summary(M, mer)
@@ -208,6 +208,45 @@ def s_h1_send_error(vc):
         vc.ensure("nopage.trace", kinds == ["CloseConnection"] and made == [])
         if kinds == ["CloseConnection"]:
             vc.ensure("nopage.closes_client", tr[0].connection is client)
+
+
+@scenario("http1.error_page_on_the_wire", candidates=[dict(message="m", body=b"<html>x</html>")], functions=[H1S + ".send", M, "mitmproxy.http:Response.make", "mitmproxy.net.http.http1.assemble:assemble_response"])
+def s_h1_page_on_wire(vc):
+    """what Http1Server.send actually writes for an error (make_error_response NOT abstracted, called the way send calls it):
+    an HTTP/1.x status line whatever version the request line claimed, the four fields, the body of format_error."""
+    from mitmproxy.proxy.layers.http._events import ErrorCode
+    from mitmproxy.connection import ConnectionState
+    from mitmproxy import version
+    from props.httpstream import mk_request
+    req_version = vc.case("request_version", [b"HTTP/1.1", b"HTTP/1.0", b"HTTP/2.0", b"HTTP/0.9", None])
+    code, status = vc.case("code", [(ErrorCode.GENERIC_CLIENT_ERROR, 400), (ErrorCode.REQUEST_TOO_LARGE, 413), (ErrorCode.CONNECT_FAILED, 502)])
+    srv, client = mk_h1_server(vc, ConnectionState.OPEN, None)
+    if req_version is None:
+        srv.request = None       # error before a request could be parsed
+    else:
+        srv.request = mk_request(vc, http_version=req_version)
+    msg = vc.sym_str("message")
+    body = vc.sym_bytes("body")
+    calls = []
+    _body_summary(vc, body, calls)
+    ev = vc.new(EV + "ResponseProtocolError", stream_id=1, message=msg, code=code)
+    out = vc.call(H1S + ".send", srv, ev)
+    vc.ensure("no_exception", out.ok)
+    if not out.ok:
+        return
+    tr = out.trace
+    kinds = trace_kinds(tr)
+    vc.ensure("trace", kinds == ["SendData", "CloseConnection"])
+    if kinds[:1] != ["SendData"]:
+        return
+    data = tr[0].data
+    vc.ensure("to_the_client", tr[0].connection is client)
+    vc.ensure("status_line.http1_version", Or(startswith(data, b"HTTP/1.1 "), startswith(data, b"HTTP/1.0 ")))
+    vc.ensure("status_line.code", data[9:13] == dec(vc, status) + b" ")
+    tail = (CRLF + b"Server: " + version.MITMPROXY.encode() + CRLF + b"Connection: close" + CRLF + b"Content-Type: text/html" + CRLF
+            + b"content-length: " + dec(vc, len_(body)) + CRLF + CRLF + body)
+    vc.ensure("fields_then_body", endswith(data, tail))
+    vc.ensure("body_from_format_error", And(len(calls) == 1, calls[0][0] == status, calls[0][1] == msg) if calls else False)
 
 
 class StubSM:
@@ -450,6 +489,7 @@ def s_h3_send_error(vc):
 # T2 (bounded): real HttpLayer, sans-io; inputs that make mitmproxy answer with an error page, with markup in the reflected text
 
 MARKER = b"<script>alert(\"x&'y\")</script>"
+FULLWIDTH = "\uff1cscript\uff1ealert(\uff02x\uff06\uff07y\uff02)\uff1c/script\uff1e".encode("utf8")
 SKELETON = ["html", "head", "title", "/title", "/head", "body", "h1", "/h1", "p", "/p", "/body", "/html"]
 
 
@@ -508,7 +548,7 @@ def page_checks(b, body: bytes, inp, expect_reflection):
     if MARKER in body or b"<script" in body.lower():
         b.fail("c12.reflected_text_is_escaped", inp, f"raw marker in page: {body!r}")
     para = html.unescape(p.text.get("p", ""))
-    if expect_reflection and MARKER.decode() not in para and "<script>" not in para:
+    if expect_reflection and "script" not in para:
         # the marker went through repr()/str(): quotes and backslashes may be re-spelt, the tag opener must survive unescaping
         b.fail("c12.reflection_survives_unescape", inp, f"<p> text after html.unescape: {para!r}")
     return p
@@ -530,7 +570,8 @@ def bounded(tier, seed):
     cases = []  # (label, client stream, responses, kwargs, expected status, reflection expected)
     # markers: plain markup; markup next to a character reference (text that "looks escaped already"); markup in a message that
     # makes the page larger than 8 kB / 64 kB (whole delivery only)
-    markers = [("", MARKER), ("+charref", b"&amp;&lt;&#39;" + MARKER), ("+9k", MARKER + b"A" * 9000)]
+    # "+fullwidth": compatibility forms of < > " ' & (U+FF1C ...): harmless as they are, live markup after a compatibility normalisation
+    markers = [("", MARKER), ("+charref", b"&amp;&lt;&#39;" + MARKER), ("+9k", MARKER + b"A" * 9000), ("+fullwidth", FULLWIDTH)]
     if tier != "quick":
         markers.append(("+70k", MARKER + b"B" * 70000))
     for mtag, M in markers:
@@ -563,11 +604,14 @@ def bounded(tier, seed):
         ("response-te-and-cl", good, [(mk_response(lines=[b"Transfer-Encoding: chunked", b"Content-Length: 3", b"X-A: " + M]), False)], {}, 502, False),
         ("response-bad-chunk", good, [(mk_response(lines=[b"Transfer-Encoding: chunked"], body=M + b"\r\n"), False)], {}, 502, False),
         ("server-closes", good, [(b"", True)], {}, 502, False),
+        ("request-claims-http2-upstream-unreachable", mk_request(b"GET", target=b"http://example.com/ok", version=b"HTTP/2.0"), [], {"open_error": M.decode()}, 502, True),
+        ("request-claims-http09-bad-content-length", mk_request(b"POST", version=b"HTTP/0.9", lines=[b"Content-Length: " + M]), [], {}, 400, True),
+        ("http10-upstream-unreachable", mk_request(b"GET", target=b"http://example.com/ok", version=b"HTTP/1.0"), [], {"open_error": M.decode()}, 502, True),
       ]]
     n_pages = 0
     for label, stream, responses, kw, status, reflect in cases:
         for delivery, prefix in itertools.product(["whole", "bytes"], [b"", good]):
-            if prefix and (label.startswith("upstream-unreachable") or tier == "quick" and delivery == "bytes"):
+            if prefix and ("upstream-unreachable" in label or tier == "quick" and delivery == "bytes"):
                 continue
             if delivery == "bytes" and (label.endswith("k") or (tier == "quick" and "+" in label)):
                 continue
@@ -598,6 +642,8 @@ def bounded(tier, seed):
                 b.fail("c12.page_is_the_last_response", inp, repr(d["messages"]))
             if pg.status != status:
                 b.fail("c12.page_status", inp, f"expected {status}, got {pg.status}")
+            if pg.version not in (b"HTTP/1.1", b"HTTP/1.0"):
+                b.fail("c12.http1_page_status_line_version", inp, f"status line of the page starts with {pg.version!r} on an HTTP/1 connection")
             ct = [v for n, v in pg.fields if n.lower() == b"content-type"]
             if ct != [b"text/html"]:
                 b.fail("c12.page_declares_html", inp, repr(pg.fields))
@@ -622,9 +668,10 @@ def _h2_cases(b, tier):
     from props.C01 import mk_response
     n = 0
     cases = []
-    for mtag, M in [("", MARKER), ("+charref", b"&amp;&lt;&#39;" + MARKER), ("+9k", MARKER + b"A" * 9000)]:
+    for mtag, M in [("", MARKER), ("+charref", b"&amp;&lt;&#39;" + MARKER), ("+9k", MARKER + b"A" * 9000), ("+fullwidth", FULLWIDTH)]:
       cases += [(lab + mtag, kw, orr, code, refl, M) for lab, kw, orr, code, refl in [
         ("h2.upstream-unreachable", {"open_error": M.decode()}, None, 502, True),
+        ("h2.scheme", {"scheme": M.replace(b" ", b"")}, None, 400, True),
         ("h2.response-field-name", {}, mk_response(lines=[M + b": 1", b"Content-Length: 0"]), 502, True),
         ("h2.response-content-length", {}, mk_response(lines=[b"Content-Length: " + M]), 502, True),
         ("h2.response-status-line", {}, b"HTTP/1.1 " + M + b" OK\r\n\r\n", 502, True),
@@ -643,7 +690,7 @@ def _h2_cases(b, tier):
             peer = h2peer.H2Peer(d, ctx.client, client_side=True)
             peer.start()
             sid = peer.h2.get_next_available_stream_id()
-            peer.h2.send_headers(sid, [(b":method", b"GET"), (b":scheme", b"http"), (b":authority", b"example.com"), (b":path", b"/" + M.replace(b" ", b"")), (b"x-a", M)], end_stream=True)
+            peer.h2.send_headers(sid, [(b":method", b"GET"), (b":scheme", kw.get("scheme", b"http")), (b":authority", b"example.com"), (b":path", b"/" + M.replace(b" ", b"")), (b"x-a", M)], end_stream=True)
             peer.flush()
             if origin_resp is not None and d.opened:
                 d.data(d.opened[0], origin_resp)
